@@ -43,8 +43,8 @@ CLAIMED = {
         text="Fault enumeration over a seeded family of short scenarios (channel init with options and virtual system files; every request kind driven to completion against a healthy virtual network, UDP and TCP-upgraded; cache hits; search lists; hosts-file lookups; server-list edits, reinit, cancel, dup, save-options; destroy). Each scenario is executed once failure-free to count its N allocator calls, then once per n in 1..N with exactly the n-th allocation returning NULL (quick tier: at most 500 evenly spread n per scenario). Verdict per execution: no sanitizer report; allocator ledger empty and no foreign free after ares_destroy + ares_library_cleanup; every accepted request got exactly one callback; a request that still reports success has the same answer shape as in the failure-free execution; and after the failure a fresh query on the same channel against the healthy network completes. A second part repeats the enumeration with the library's event thread (Mode B: event thread on epoll/poll/select plus 1..2 caller threads under the baton scheduler, one process per failing index), where allocations made by the library's own threads are failed too and a hang of ares_destroy, a busy loop or a deaf event thread count as violations.",
         ref="5 C14", tech=TECH + "exhaustive-per-scenario enumeration of the failing allocation index with ledger, differential and usability oracles + ASan/UBSan", note=NOTE_COMMON + " The allocator seam is the public ares_library_init_mem(); realloc failures keep the original block. AF_UNSPEC address lookups are excluded from the answer-shape comparison (either half may legitimately be missing). One known finding (KF-C14-1: a socket-state change lost for lack of memory in the event thread)."),
     'C16': dict(
-        text="Scoped as in DESIGN.md: seeded option masks and values (every option independently set or left to the system), server sets (IPv4/IPv6/link-local, default/equal/differing UDP and TCP ports) through five encodings (CSV incl. dns:// URIs and %iface, legacy IPv4 option, system files, address nodes, address+port nodes), sortlists and domains, against virtual resolv.conf/nsswitch/environment contents that disagree with every user-set field. Plans interleave traffic with ares_dup, ares_save_options -> ares_init_options, ares_get_servers_csv -> ares_set_servers_ports_csv on a fresh channel, rewrites of the virtual system files followed by ares_reinit, and explicit setters. After init and after every step each user-set field and the user-set server list must still be in force; copies are compared with the original field by field (effective settings, server list with ports and interface, saved options and mask); the CSV text must be a fixed point of get -> set -> get.",
-        ref="5 C16", tech=TECH + "reference comparison of original vs copy and of effective vs user-supplied settings after every step", note=NOTE_COMMON + " Effective values of options that ares_save_options cannot report are read (never written) through sim/peek.c. The options structure carries IPv4 servers without ports only (documented): save->init server comparison is limited to that. Servers are compared as sets once the original has recorded a server failure (public getters list them in priority order). One known finding (KF-C16-1, stale system-derived settings after reinit)."),
+        text="Scoped as in DESIGN.md: seeded option masks and values (every option independently set or left to the system), server sets (IPv4/IPv6/link-local, default/equal/differing UDP and TCP ports) through five encodings (CSV incl. dns:// URIs and %iface, legacy IPv4 option, system files, address nodes, address+port nodes), sortlists and domains, against virtual resolv.conf/nsswitch/environment contents that disagree with every user-set field. Plans interleave traffic with ares_dup, ares_save_options -> ares_init_options, ares_get_servers_csv -> ares_set_servers_ports_csv on a fresh channel, rewrites of the virtual system files followed by ares_reinit, and explicit setters. After init and after every step each user-set field and the user-set server list must still be in force; copies are compared with the original field by field (effective settings, server list with ports and interface, saved options and mask); the CSV text must be a fixed point of get -> set -> get. A second part (Mode B) runs the same option space on a channel with the library's event thread: two caller threads under the seeded baton scheduler issue ares_reinit, rewrite resolv.conf and inject change notifications (the event thread then starts the reload thread), while one of them calls ares_set_servers_ports_csv / ares_set_sortlist at every position relative to the reloads (configuration-file reads are scheduling points); once no reload is in progress, every setting the application made at init or through a setter must be the one in force.",
+        ref="5 C16", tech=TECH + "reference comparison of original vs copy and of effective vs user-supplied settings after every step; seeded thread interleavings of setters against reload threads (baton scheduler)", note=NOTE_COMMON + " Effective values of options that ares_save_options cannot report are read (never written) through sim/peek.c. The options structure carries IPv4 servers without ports only (documented): save->init server comparison is limited to that. Servers are compared as sets once the original has recorded a server failure (public getters list them in priority order). One known finding (KF-C16-1, stale system-derived settings after reinit)."),
     'C17': dict(
         text="Virtual servers implement RFC 7873 server behaviour in ten modes (no cookie support, echo, strict BADCOOKIE, rotating secrets, regression to no-cookie and back, malformed lengths, wrong client cookie echoes). A per-(channel, server) reference model of the client state machine is fed every transmission and every reply the library read: client cookie stable while source address and server are unchanged and regenerated when they change, server cookie echoed exactly as last validly learned, replies with a missing/mismatched client cookie dropped once support was seen, at most the allowed consecutive BADCOOKIE resends before TCP, and fall back to cookie-less operation within the regression period on a virtual clock.",
         ref="5 C17", tech=TECH + "RFC 7873 reference state machine over recorded transmissions/reads under a virtual clock", note=NOTE_COMMON),
